@@ -18,8 +18,11 @@ Sub-checks (every point of each finite lattice is evaluated, nothing is sampled)
             (bit-identical), with what a fresh bank object returns for that call, and for shared
             memory with the other held arrays
 
-The bank lattice has two parts: the design lattice (even integer rates) and a boundary part with
-odd and fractional sampling rates, whose top edge sits at / between / on floor(rate/2) and rate/2.
+The bank lattice has three parts: the design lattice (even integer rates, scales with their default
+parameters), a boundary part with odd and fractional sampling rates, whose top edge sits at / between /
+on floor(rate/2) and rate/2, and a part in which the nested scaling-function object carries non-default
+parameters (linear: slope_hz 0.001 / 0.5 / 3 with low_hz 0 / 10 / 50; octave: low_hz 1 / 7.5 / 100) for
+every bank class that takes a scaling function, at the rates of both other parts.
 
 A *valid* configuration whose constructor raises is counted (obs "unconstructible:<text>",
 trivial point), not reported: the property speaks about the filters of a bank that exists.
@@ -48,6 +51,10 @@ ASSUMPTIONS = [
     "(floor(rate/2), rate/2] is not stated by the property (left open, counted in axes.left_open); the "
     "triangular bank, whose documented default is the Nyquist frequency and which accepts every high_hz "
     "up to it, is enumerated with high_hz in {None, floor(rate/2), between, rate/2}",
+    "scale parameters: LinearScaling(low_hz, slope_hz) with slope_hz in {0.001, 0.5, 3} (positive, as "
+    "documented: 'the increase in scale corresponding to a 1 Hertz increase') and OctaveScaling(low_hz) "
+    "with low_hz in {1, 7.5, 100} at or below the bank's low_hz ('frequencies below this value should "
+    "never be queried'); mel and bark have no parameters",
     "history: a response is a function of (bank configuration, filter, width, half) - the property "
     "quantifies over exactly these - so a result that depends on earlier calls on the same object, or "
     "that changes after it was returned, violates it. The differential oracle is a fresh object of the "
@@ -155,8 +162,8 @@ def bank_lattice(kinds, nfs, rates, orders=(1, 2, 4, 6), scales=SCALES, ranges_f
             for nf in nfs:
                 for rate in rates:
                     for low, high in ranges_fn(kind, rate):
-                        if scname == "octave" and low <= 0:
-                            continue
+                        if scname == "octave" and (low <= 0 or low < sc["low_hz"]):
+                            continue    # "frequencies below [the scale's low_hz] should never be queried"
                         for fl in flag_sets(kind, orders):
                             b = dict(name=kind, num_filts=nf, low_hz=low, sampling_rate=rate)
                             if kind != "fbank":
@@ -173,6 +180,22 @@ RATES = (1000, 8000, 16000)
 ODD_RATES = (1001, 11025, 22050.5)
 EDGE_RATES = (1000, 1001, 2000.5, 8000)
 EXTRA_SCALES = ({"name": "linear", "low_hz": 10.0, "slope_hz": 0.5}, {"name": "octave", "low_hz": 7.5})
+# Re-parameterised scales (both tiers): the scaling function is a nested configuration object with
+# documented parameters of its own (mel and bark have none).  A correct linear scale gives the SAME layout
+# for every (low_hz, slope_hz) - a layout is invariant under affine maps of the scale - and a correct
+# octave scale the same layout for every low_hz; the reference recomputes it from the documented forward
+# / inverse formulas with the parameters as given.  Slopes below and above 1, a scale origin below,
+# between and AT the banks' low_hz (an octave scale is only defined at and above its own low_hz: banks
+# that start below it are not enumerated).
+PARAM_SCALES = (
+    {"name": "linear", "low_hz": 10.0, "slope_hz": 0.5},
+    {"name": "linear", "low_hz": 50.0, "slope_hz": 3.0},
+    {"name": "linear", "low_hz": 0.0, "slope_hz": 0.001},
+    {"name": "octave", "low_hz": 7.5},
+    {"name": "octave", "low_hz": 1.0},
+    {"name": "octave", "low_hz": 100.0},
+)
+PARAM_KINDS = ("tri", "gabor", "gammatone")          # Fbank has no scaling_function argument (always mel)
 
 
 def tier_lattice(tier, kinds=ALL_KINDS, orders=(1, 2, 4, 6)):
@@ -183,6 +206,25 @@ def tier_lattice(tier, kinds=ALL_KINDS, orders=(1, 2, 4, 6)):
         out += bank_lattice(kinds, (23, 40), (8000, 16000), orders)
         out += bank_lattice([k for k in kinds if k != "fbank"], (3, 11), RATES, orders, scales=EXTRA_SCALES)
     return out
+
+
+def param_lattice(tier, orders=(1, 2, 4, 6)):
+    """C05 only: the design lattice and the boundary lattice once more, with every re-parameterised scale
+    of PARAM_SCALES in place of the default-parameter scales"""
+    kinds = PARAM_KINDS
+    out = bank_lattice(kinds, (1, 2, 3, 5, 11), RATES, orders, scales=PARAM_SCALES)
+    out += bank_lattice(kinds, (1, 2, 3, 5, 11) if tier == "thorough" else (1, 3, 5), ODD_RATES, orders,
+                        scales=PARAM_SCALES, ranges_fn=odd_ranges)
+    if tier == "thorough":
+        out += bank_lattice(kinds, (23, 40), (8000, 16000), orders, scales=PARAM_SCALES)
+    return out
+
+
+def param_response_lattice(tier):
+    """the part of param_lattice whose filters are measured (gain, crossings, ERB, L2 norm: expensive)"""
+    if tier == "thorough":
+        return bank_lattice(PARAM_KINDS, (1, 2, 3, 5, 11), RATES, scales=PARAM_SCALES)
+    return bank_lattice(PARAM_KINDS, (3, 11), RATES, orders=(2, 4), scales=PARAM_SCALES)
 
 
 def odd_lattice(tier, kinds=ALL_KINDS, orders=(1, 2, 4, 6)):
@@ -885,10 +927,12 @@ def reject_rates(tier):
 def subchecks(tier, seed):
     design = tier_lattice(tier)
     odd = odd_lattice(tier)
-    banks = design + odd
+    param = param_lattice(tier)
+    banks = design + odd + param
     # gain / crossings / ERB are measured per filter (expensive): the boundary part takes part with its
     # compactly supported classes, whose route is cheap; its layout is checked for all four classes
     resp_banks = design + [b for b in odd if b["name"] in ("tri", "fbank")]
+    resp_banks += [b for b in param_response_lattice(tier) if b not in design]
     if tier == "quick":
         # the narrow filters of large banks are what lies inside the "< rate/2" domain for low orders
         # (the thorough lattice contains them anyway)
@@ -896,9 +940,14 @@ def subchecks(tier, seed):
     tri_banks = [b for b in banks if b["name"] in ("tri", "fbank")]
     cap = IR_CAP[tier]
     left_open = odd_left_open(odd)
-    axes = dict(bank=sorted(CLASSNAME), scale=list(SCALES) + (list(EXTRA_SCALES) if tier == "thorough" else []), num_filts=sorted(set(b["num_filts"] for b in banks)),
+    axes = dict(bank=sorted(CLASSNAME), scale=list(SCALES) + list(PARAM_SCALES), num_filts=sorted(set(b["num_filts"] for b in banks)),
                 rate=list(RATES) + list(ODD_RATES),
-                low_high="rates %r: (0,None) (20,None) (100,0.8 Nyq) (0,Nyq); octave: low>0" % (RATES,),
+                low_high="rates %r: (0,None) (20,None) (100,0.8 Nyq) (0,Nyq); octave: low>0 and low >= the "
+                         "scale's own low_hz" % (RATES,),
+                scale_parameters="every re-parameterised scale x Triangular / Gabor / gammatone x num_filts x "
+                                 "rates (even, odd, fractional) x (low, high) x every flag combination "
+                                 "(constructible, layout, triangle); response: num_filts {3, 11}, gammatone "
+                                 "orders {2, 4} in the quick tier",
                 low_high_boundary="rates %r, num_filts %r: low {0, 20} x high {floor(rate/2), 0.8 Nyq} and, for the "
                                   "triangular bank, {None, between floor(rate/2) and rate/2, rate/2}" % (
                                       ODD_RATES, sorted(set(b["num_filts"] for b in odd))),
@@ -935,7 +984,10 @@ def subchecks(tier, seed):
             "edge spacing +- 1%% (erb=True); DTFT of a wide impulse response and get_frequency_response. "
             "non-trivial = documented support spans < rate/2 (others are outside the property's domain)",
             axes=dict(axes, extra_num_filts="quick: + 40 filters (mel, 16 kHz, Gabor / gammatone)", ir_cap=cap,
-                      boundary_part="triangular / Fbank only"),
+                      boundary_part="triangular / Fbank only",
+                      scale_parameters="every re-parameterised scale x Triangular / Gabor / gammatone x rates "
+                                       "%r x (low, high) x flags; quick: num_filts {3, 11}, gammatone orders "
+                                       "{2, 4}" % (RATES,)),
             replay=_replay_bank(lambda b: _response(b, cap))),
         core.SubCheck(
             "reject", reject_points(tier), _reject,
